@@ -16,7 +16,7 @@ import (
 
 type gateCtl struct {
 	mu      sync.Mutex
-	gidx    map[int64]int    // goroutine id -> program index
+	gidx    map[int64]int // goroutine id -> program index
 	parked  map[int]chan struct{}
 	arrived chan int
 	done    chan int
@@ -166,12 +166,12 @@ func runConcExplore(args []string) int {
 	dir, _ := os.MkdirTemp("", "vh-cx-")
 	defer os.RemoveAll(dir)
 	programs := [][][]ccOp{
-		{{{"put", 1}}, {{"put", 1}}},                                            // same block twice
-		{{{"put", 1}, {"has", 2}}, {{"put", 2}, {"get", 1}}},                     // cross visibility
-		{{{"put", 1}, {"put", 2}}, {{"keys", 0}, {"put", 1}}},                    // listing vs puts
-		{{{"put", 1}}, {{"finalize", 0}}, {{"get", 1}}},                          // finalize vs writer vs reader
-		{{{"put", 1}, {"finalize", 0}}, {{"put", 2}}},                            // put racing with finalize
-		{{{"put", 1}}, {{"put", 1}}, {{"put", 1}, {"finalize", 0}}},              // three writers, one block
+		{{{"put", 1}}, {{"put", 1}}},                                // same block twice
+		{{{"put", 1}, {"has", 2}}, {{"put", 2}, {"get", 1}}},        // cross visibility
+		{{{"put", 1}, {"put", 2}}, {{"keys", 0}, {"put", 1}}},       // listing vs puts
+		{{{"put", 1}}, {{"finalize", 0}}, {{"get", 1}}},             // finalize vs writer vs reader
+		{{{"put", 1}, {"finalize", 0}}, {{"put", 2}}},               // put racing with finalize
+		{{{"put", 1}}, {{"put", 1}}, {{"put", 1}, {"finalize", 0}}}, // three writers, one block
 	}
 	run := 0
 	for pi, progs := range programs {
